@@ -99,6 +99,9 @@ def inst(obj) -> str:
 
 
 def sim_str(sim) -> str:
+    if hasattr(sim, 'decoders'):          # SplittingSimulation
+        return (f'{inst(sim.code)}|{inst(sim.error_model)}|{inst(sim.decoders[0])}|'
+                f'{enc([float(x) for x in sim.error_rates])}|splitting')
     return f'{inst(sim.code)}|{inst(sim.error_model)}|{inst(sim.decoder)}|{enc(sim.error_rate)}'
 
 
@@ -371,7 +374,12 @@ def malformed_ranges(rng):
     mod('flat-direction-list', lambda r: r['error_model'].__setitem__('parameters', [1, 0, 0]))
     mod('unknown-decoder-keyword', lambda r: r['decoder'].__setitem__('parameters', [{'speed': 3}]))
     mod('decoder-parameters-not-dict', lambda r: r['decoder'].__setitem__('parameters', [3]))
-    mod('splitting', lambda r: r.__setitem__('method', {'name': 'splitting', 'parameters': {}}))
+    mod('splitting-without-n_init_runs', lambda r: r.__setitem__('method', {'name': 'splitting', 'parameters': {}}))
+    mod('splitting', lambda r: r.__setitem__('method', {'name': 'splitting', 'parameters': {'n_init_runs': 5}}))
+    mod('splitting', lambda r: r.__setitem__('method', {'name': 'splitting',
+                                                        'parameters': {'start_run': 2, 'n_init_runs': 7}}))
+    mod('splitting-verbose', lambda r: r.__setitem__('method', {'name': 'splitting',
+                                                                'parameters': {'n_init_runs': 5, 'verbose': True}}))
     mod('unknown-method', lambda r: r.__setitem__('method', {'name': 'annealing', 'parameters': {}}))
     mod('method-without-name', lambda r: r.__setitem__('method', {'parameters': {}}))
     mod('method-without-parameters', lambda r: r.__setitem__('method', {'name': 'direct'}))
